@@ -611,7 +611,169 @@ static void sc_param_indices(vf_result *r)
     vf_outcome(r, "parameter indices consistent");
 }
 
-#define NSCEN 23
+/* ------------------------------------------------------------------ */
+/* refused saves: a save or cksave refused for its arguments changes no
+ * getter's answer (file type, format, precisions, data)               */
+/* ------------------------------------------------------------------ */
+static void vd_state(vnadata_t *v, char *buf, size_t n)
+{
+    const char *fmt = vnadata_get_format(v);
+    size_t k = (size_t)snprintf(buf, n, "type %d %dx%dx%d filetype %d "
+	    "format %s fprec %d dprec %d fz0 %d |", (int)vnadata_get_type(v),
+	    vnadata_get_rows(v), vnadata_get_columns(v),
+	    vnadata_get_frequencies(v), (int)vnadata_get_filetype(v),
+	    fmt ? fmt : "(none)", vnadata_get_fprecision(v),
+	    vnadata_get_dprecision(v), (int)vnadata_has_fz0(v));
+    for (int f = 0; f < vnadata_get_frequencies(v) && k < n; ++f) {
+	k += (size_t)snprintf(buf + k, n - k, " f%g", vnadata_get_frequency(v, f));
+	for (int p = 0; p < vnadata_get_columns(v) && k < n; ++p) {
+	    double complex z = vnadata_get_fz0(v, f, p);
+	    k += (size_t)snprintf(buf + k, n - k, " z%g%+g", creal(z), cimag(z));
+	}
+	for (int i = 0; i < vnadata_get_rows(v) && k < n; ++i)
+	    for (int j = 0; j < vnadata_get_columns(v) && k < n; ++j) {
+		double complex c = vnadata_get_cell(v, f, i, j);
+		k += (size_t)snprintf(buf + k, n - k, " %g%+g", creal(c),
+			cimag(c));
+	    }
+    }
+}
+
+#define RS_NOBJ 7
+static vnadata_t *rs_make(int which, const char **what)
+{
+    static const struct { vnadata_parameter_type_t t; int n; int ft;
+	const char *fmt; int z0kind; const char *what; } tab[RS_NOBJ] = {
+	{ VPT_S, 2, VNADATA_FILETYPE_NPD, "Sri,Zri", 0,
+	    "S 2x2, file type NPD, format \"Sri,Zri\"" },
+	{ VPT_T, 2, VNADATA_FILETYPE_AUTO, NULL, 0,
+	    "T 2x2, file type and format never set" },
+	{ VPT_S, 5, VNADATA_FILETYPE_AUTO, NULL, 0,
+	    "S 5x5, file type and format never set" },
+	{ VPT_S, 2, VNADATA_FILETYPE_NPD, "Sma", 1,
+	    "S 2x2 with 50 and 75 ohm ports, file type NPD, format \"Sma\"" },
+	{ VPT_S, 2, VNADATA_FILETYPE_NPD, "Sri", 2,
+	    "S 2x2 with per-frequency z0, file type NPD, format \"Sri\"" },
+	{ VPT_S, 1, VNADATA_FILETYPE_AUTO, "il", 0,
+	    "S 1x1, file type never set, format \"il\"" },
+	{ VPT_Z, 2, VNADATA_FILETYPE_TOUCHSTONE2, "ZdB", 3,
+	    "Z 2x2 with a complex z0, file type Touchstone 2, format "
+	    "\"ZdB\"" },
+    };
+    vnadata_t *v = vnadata_alloc_and_init(vf_errfn, &c3_F.elog, tab[which].t,
+	    tab[which].n, tab[which].n, 2);
+    if (v == NULL)
+	return NULL;
+    *what = tab[which].what;
+    for (int f = 0; f < 2; ++f) {
+	vnadata_set_frequency(v, f, 1e9 * (f + 1));
+	for (int i = 0; i < tab[which].n; ++i)
+	    for (int j = 0; j < tab[which].n; ++j)
+		vnadata_set_cell(v, f, i, j, (i == j ? 0.5 : 0.25) +
+			0.125 * I * (i + 2 * j + f));
+    }
+    if (tab[which].z0kind == 1)
+	vnadata_set_z0(v, 1, 75.0);
+    else if (tab[which].z0kind == 2)
+	vnadata_set_fz0(v, 1, 0, 60.0 + 5.0 * I);
+    else if (tab[which].z0kind == 3)
+	vnadata_set_all_z0(v, 50.0 + 2.0 * I);
+    if (tab[which].ft != VNADATA_FILETYPE_AUTO)
+	vnadata_set_filetype(v, (vnadata_filetype_t)tab[which].ft);
+    if (tab[which].fmt != NULL && vnadata_set_format(v, tab[which].fmt) != 0) {
+	vnadata_free(v);
+	return NULL;
+    }
+    return v;
+}
+
+static void sc_refused_save(vf_result *r)
+{
+    fx_t *F = &c3_F;
+    static const char *const names[] = { "rs.s2p", "rs.s1p", "rs.s4p",
+	"rs.ts", "rs.npd", "rs" };
+    static const char *const fns[] = { "vnadata_cksave", "vnadata_save",
+	"vnadata_fsave" };
+    int refused = 0, accepted = 0;
+
+    vf_desc(r, "7 vnadata_t objects x 6 file names x cksave / save / fsave: "
+	    "a call refused for its arguments (EINVAL) leaves file type, "
+	    "format, precisions, impedances and data as they were");
+    for (int o = 0; o < RS_NOBJ; ++o)
+	for (int ni = 0; ni < 6; ++ni)
+	    for (int fi = 0; fi < 3; ++fi) {
+		const char *what = "";
+		vnadata_t *v = rs_make(o, &what);
+		char before[2048], after[2048];
+		const char *path = vf_tmp(names[ni]);
+		int rc, e;
+
+		if (v == NULL) {
+		    vf_fail(r, "scenario-setup", "object %d cannot be built",
+			    o);
+		    return;
+		}
+		vd_state(v, before, sizeof(before));
+		vf_errlog_reset(&F->elog);
+		errno = 0;
+		if (fi == 0) {
+		    rc = vnadata_cksave(v, path);
+		} else if (fi == 1) {
+		    rc = vnadata_save(v, path);
+		} else {
+		    FILE *fp = fopen("/dev/null", "w");
+		    rc = vnadata_fsave(v, fp, path);
+		    if (fp != NULL)
+			fclose(fp);
+		}
+		e = errno;
+		++r->transitions;
+		unlink(path);
+		if (rc == -1 && e == EINVAL) {
+		    ++refused;
+		    vd_state(v, after, sizeof(after));
+		    if (strcmp(before, after) != 0) {
+			char sig[96];
+			snprintf(sig, sizeof(sig), "state-changed:%s:refused",
+				fns[fi]);
+			vf_fail(r, sig, "%s(\"%s\") on %s is refused (%s) and "
+				"changes what the getters answer: before "
+				"\"%.160s\", after \"%.160s\"", fns[fi],
+				names[ni], what, F->elog.count ?
+				F->elog.msg[0] : "no message", before, after);
+			vnadata_free(v);
+			return;
+		    }
+		    if (F->elog.count != 1) {
+			char sig[96];
+			snprintf(sig, sizeof(sig), "callback-count:%s:refused",
+				fns[fi]);
+			vf_fail(r, sig, "%s(\"%s\") on %s is refused with %d "
+				"error lines", fns[fi], names[ni], what,
+				F->elog.count);
+			vnadata_free(v);
+			return;
+		    }
+		} else if (rc == 0) {
+		    ++accepted;
+		} else {
+		    char sig[96];
+		    snprintf(sig, sizeof(sig), "errno:%s:refused", fns[fi]);
+		    vf_fail(r, sig, "%s(\"%s\") on %s returned %d with errno "
+			    "%d: %s", fns[fi], names[ni], what, rc, e,
+			    F->elog.count ? F->elog.msg[0] : "");
+		    vnadata_free(v);
+		    return;
+		}
+		vnadata_free(v);
+	    }
+    r->states = refused;
+    r->nontrivial = refused > 20 && accepted > 20;
+    vf_outcome(r, "refused saves leave the object alone (%d refused, %d "
+	    "accepted)", refused, accepted);
+}
+
+#define NSCEN 24
 static void run_scenario(int k, vf_result *r)
 {
     const char *err;
@@ -633,6 +795,7 @@ static void run_scenario(int k, vf_result *r)
     case 5: sc_rejected_add(r); break;
     case 6: sc_indices(r); break;
     case 21: sc_param_indices(r); break;
+    case 22: sc_refused_save(r); break;
     case 13: case 14: case 15: case 16: case 17: case 18: case 19: case 20:
 	sc_degenerate_trl(k - 13, r);
 	break;
@@ -664,7 +827,7 @@ vf_driver vf_drv = {
 	"arguments moved to a boundary value on a fresh rich fixture, judged "
 	"by the failure value / errno class / callback rule transcribed from "
 	"the manual pages and by a digest of all objects before and after a "
-	"refused call; plus 13 late-failure and index scenarios.  Non-trivial: "
+	"refused call; plus 23 late-failure, index and refused-save scenarios.  Non-trivial: "
 	"valid calls (success, no non-warning callback), calls that must fail "
 	"by the documentation, and the scenarios; calls with alternative "
 	"values only get the generic checks (well-formed failure, callback "
